@@ -58,6 +58,23 @@ def run(chk):
             if u == 'tpkt' and len(b) > 1:
                 b[1] = rng.getrandbits(8)       # the reserved byte is not canonical
             lines.append('pframe %s %s' % (u, bytes(b).hex() + framegen.rnd_bytes(rng, rng.choice([0, 1, 3])).hex()))
+    # accepted non-canonical forms of the units of C05_ssl2_record / C05_ssh_packet / C05_ssh_mpint: SSL 2.0 records with the
+    # 3-byte header and padding, SSH packets with more padding than the rule gives and arbitrary padding bytes, SSH mpints
+    # with unnecessary leading 00 / ff bytes
+    for _ in range(max(20, n // 5)):
+        body = b'\x00' + rng.choice([1, 2, 4, 6]).to_bytes(2, 'big')
+        pad = rng.choice([0, 1, 3, 7, 200])
+        rec = (bytes([((len(body) + pad) >> 8) & 0x3f, (len(body) + pad) & 0xff, pad]) + body + framegen.rnd_bytes(rng, pad)
+               if rng.random() < 0.7 else bytes([0x80, len(body)]) + body)
+        lines.append('pssl2 %s' % (rec + framegen.rnd_bytes(rng, rng.choice([0, 0, 3]))).hex())
+        payload = b'\x03' + framegen.rnd_bytes(rng, 4)
+        pad = rng.choice([4, 6, 7, 14, 22, 255, 0, 1])
+        lines.append('pssh %s' % ((len(payload) + pad + 1).to_bytes(4, 'big') + bytes([pad]) + payload + framegen.rnd_bytes(rng, pad)
+                                  + framegen.rnd_bytes(rng, rng.choice([0, 0, 2]))).hex())
+        z = rng.choice([0, 1, 127, 128, 255, 256, -1, -128, -129, -256, rng.getrandbits(64), -rng.getrandbits(64)])
+        raw = z.to_bytes(z.bit_length() // 8 + 1, 'big', signed=True) if z else b''
+        raw = bytes([0xff if z < 0 else 0]) * rng.choice([0, 1, 2, 5]) + raw
+        lines.append('psshmpint %s' % (len(raw).to_bytes(4, 'big') + raw + framegen.rnd_bytes(rng, rng.choice([0, 0, 2]))).hex())
     second = []
     impl_first = [impl.impl_line(l) for l in lines]
     for l, o in zip(lines, impl_first):
@@ -67,6 +84,15 @@ def run(chk):
         if ws[0] == 'pevec':
             items = o[3:].rsplit(' n=', 1)[0].strip('[]') or '-'
             second.append(('cevec %s %s' % (ws[1], items), 'pevec %s' % ws[1], items))
+        elif ws[0] == 'pssl2':
+            t, m = o[3:].rsplit(' n=', 1)[0].split(' ')
+            second.append(('cssl2 %s %s' % (t, m), 'pssl2', '%s %s' % (t, m)))
+        elif ws[0] == 'pssh':
+            m = o[3:].rsplit(' n=', 1)[0]
+            second.append(('cssh %s' % m, 'pssh', m))
+        elif ws[0] == 'psshmpint':
+            z = o[3:].rsplit(' n=', 1)[0]
+            second.append(('csshmpint %s' % z, 'psshmpint', z))
         else:
             hd, rest = o[3:].split(';', 1)
             pl = rest.split(' n=')[0]
@@ -111,7 +137,8 @@ def run(chk):
     chk.coverage['distinct_nontrivial'] = len(set(lines2))
     chk.coverage['traces_validated_against_impl'] = len(all_lines)
     chk.coverage['rule'] = ('accepted and mostly non-canonical inputs of the modelled classes (enum vectors with unknown / GREASE codes and trailing '
-                            'bytes, frames with non-canonical header bytes and suffixes): parse, compose the parsed object, parse again, on model '
+                            'bytes, frames with non-canonical header bytes and suffixes, SSL 2.0 records with 3-byte header and padding, SSH packets with '
+                            'any padding, SSH mpints with unnecessary leading bytes): parse, compose the parsed object, parse again, on model '
                             'and implementation; plus an implementation-only sweep over all classes reached by the repository tests (each vector '
                             'and several mutations of it that are still accepted): compose succeeds, composed bytes accepted entirely, equal '
                             'object, second compose identical; non-trivial = distinct second-round commands')
